@@ -99,6 +99,7 @@ TARGET_POSITIONS = [
     "record {E} if {E} else {E} as r", "x = ({E}) if ({E}) else ({E})",
     "require eventually {E} until {E}", "require next ({E}) if {E} else {E}",
     "param {E} = 1", "param x = {E}, y = {E}", "mutate {E}", "mutate x by {E}",
+    "param x = {E}, x = {E}", "param 'x' = 1, x = {E}", "mutate x, x", "class C:\n    foo: 1\n    foo: {E}",
     "record {E} as {E}", "record initial {E}", "terminate when {E}", "terminate after {E} seconds",
     "model {E}", "simulator {E}", "ego = {E}", "workspace = {E}",
     "behavior B({E}):\n    take {E}", "behavior B():\n    precondition: {E}\n    wait",
